@@ -122,6 +122,26 @@ def via_route(ctx, sc, route):
             return Cell.one_from_boc(data)
         except Exception:
             return None
+    if route == 'derived_then_changed':
+        # objects derived from the cell are changed afterwards (a builder gains a reference and bits, a slice is read, a copy's
+        # builder is written): the cell still reports the hash and depth of what it holds
+        c = base
+        b = c.to_builder()
+        if len(sc.refs) < 4:
+            b.store_ref(Builder().store_uint(6, 3).end_cell())
+        if len(sc.bits) < 1000:
+            b.store_uint(1, 1)
+            b.store_bit(0)
+        s = c.begin_parse()
+        if len(sc.bits) >= 3:
+            s.load_bits(2)
+            s.load_uint(1)
+        if sc.refs:
+            s.load_ref()
+        cb = c.copy().to_builder()
+        if len(sc.refs) < 4:
+            cb.store_ref(Builder().end_cell())
+        return c
     if route == 'builder_reused':
         # the cell is finished, then its builder goes on being used (another reference, more bits, a second cell):
         # the finished cell must keep describing - and hashing - what it held when it was finished
@@ -273,7 +293,7 @@ QUICK_N = sorted(set(list(range(0, 18)) + [23, 24, 25, 31, 32, 33, 63, 64, 65, 7
 SHAPES = ['leaves0', 'leaves1', 'leaves2', 'leaves3', 'leaves4', 'chain1', 'chain2', 'chain255', 'chain256', 'shared2', 'shared4',
           'diamond', 'uneven']
 ROUTES = ['ctor', 'builder', 'copy', 'parse_to_cell', 'to_builder', 'slice_consumed', 'boc', 'plain_bitarray', 'builder_reused',
-          'slice_then_read', 'boc_stored_hashes']
+          'slice_then_read', 'boc_stored_hashes', 'derived_then_changed']
 
 
 def instances(tier, seed):
